@@ -908,6 +908,10 @@ class DynamicVector : public DynamicVectorBaseTypeDispatcher<T, Alloc, SizeType,
     SizeType nElemsToShift = static_cast<SizeType>(this->size() - (position - this->begin()));
     iterator pos;
     if (this->size() == this->capacity()) {
+      // fail before the arguments are consumed when size_type cannot hold one more element
+      if (AMC_UNLIKELY(this->size() == std::numeric_limits<SizeType>::max())) {
+        throw std::overflow_error("Attempt to use more elements that size_type can support. Use a larger size_type");
+      }
       // construct before possible iterator invalidation from grow in constructor arguments
       ElemStorage<T> e;
       amc::construct_at(e.ptr(), std::forward<Args &&>(args)...);
@@ -942,6 +946,10 @@ class DynamicVector : public DynamicVectorBaseTypeDispatcher<T, Alloc, SizeType,
   reference emplace_back(Args &&...args) {
     iterator endIt;
     if (this->size() == this->capacity()) {
+      // fail before the arguments are consumed when size_type cannot hold one more element
+      if (AMC_UNLIKELY(this->size() == std::numeric_limits<SizeType>::max())) {
+        throw std::overflow_error("Attempt to use more elements that size_type can support. Use a larger size_type");
+      }
       // construct before possible iterator invalidation from grow in constructor arguments
       ElemStorage<T> e;
       amc::construct_at(e.ptr(), std::forward<Args &&>(args)...);
